@@ -117,6 +117,19 @@ func genAddressData(r *rand.Rand, wire bool) *rfc6352.AddressData {
 			ad.Props = append(ad.Props, p)
 		}
 	}
+	if wire && r.Intn(3) == 0 {
+		// the media type of the returned data (RFC 6352 section 10.4), in the
+		// values every go-webdav server advertises as supported-address-data;
+		// not part of the request the backend sees, hence not compared
+		if r.Intn(3) != 0 {
+			v := "text/vcard"
+			ad.ContentType = &v
+		}
+		if r.Intn(3) != 0 {
+			v := pick(r, []string{"3.0", "4.0"})
+			ad.Version = &v
+		}
+	}
 	return ad
 }
 
@@ -153,7 +166,7 @@ func genSelection(r *rand.Rand, wire bool) rfc6352.Selection {
 	return s
 }
 
-var limitValues = []int{-1, 0, 1, 2, 1<<31 - 1}
+var limitValues = []int{-1, 0, 1, 2, 1<<31 - 1, 1 << 32, 1 << 62, 1<<63 - 1}
 
 func genLimit(r *rand.Rand) int {
 	switch r.Intn(3) {
@@ -297,4 +310,6 @@ var (
 	invalidNegates = []string{"", "maybe", "true", "false", "1", "0", "YES", "Yes", "NO", "No", "y", "n", "on", "yesno"}
 	invalidLimits  = []string{"-1", "-5", "abc", "1.5", "1e3", "0x10", "１２", "1 2", "+-1", "−1", "1,000", "1_000", "٣", "one", "1a"}
 	zeroLimits     = []string{"0", "00", ""}
+	// conformant nresults values no AddressBookQuery.Limit (an int) can hold
+	hugeLimits = []string{"9223372036854775808", "18446744073709551615", "18446744073709551616", "99999999999999999999999999"}
 )
